@@ -518,6 +518,10 @@ HOSTILE_HTML += [b'<html>' + b''.join(b'<a href="' + l + b'">deep</a>' for l in 
 HOSTILE_HTML += [b'<html><object codebase="data" data="x"></object><object codebase="http://[bad" data="y" archive="a b c" classid="z"></object>'
                  b'<applet codebase="archive" code="c.class" archive="q"></applet><object data="" codebase=""></object>'
                  b'<object codebase="/hostile/" data="obj.bin"></object><a href="x." rel="NoFollow">dot</a><a href="trailing ">sp</a></html>']
+# event-handler attributes and javascript: pseudo-links (handed from the HTML scraper to the JavaScript scraper - when there is one)
+HOSTILE_HTML += [b'<html><body onload="init(\'/a.html\')"><a href="#" onclick="location=\'/b.html\'; return false">x</a>'
+                 b'<div onmouseover="show(\"/img/i0.png\")" onkeydown="k(\'\\x\')">y</div><a href="javascript:go(\'/d1/\')">z</a>'
+                 b'<img src="x.png" onerror="this.src=\'http://[bad/\'"><form onsubmit="return \x00"></form></body></html>']
 HOSTILE_JS += [b'var links = [' + b', '.join(b'"' + l + b'"' for l in _ODD_LINKS) + b'];']
 HOSTILE_HTML += [b'<html>' + b''.join(b'<a href="' + l + b'">x</a><img src="' + l + b'" srcset="' + l + b' 2x"><div data-href="' + l + b'"></div>' for l in _ODD_LINKS) + b'</html>']
 HOSTILE_CSS += [b''.join(b'@import url("' + l + b'"); a { background: url(' + l + b') }\n' for l in _ODD_LINKS)]
